@@ -14,7 +14,7 @@ import random
 PROPERTY = "C18"
 LEVEL = "exploration"
 RULE = ("histories of up to 12 (quick) / 50 (thorough) earlier assemblies drawn from valid, failing, internally crashing and hostile "
-        "(mutated) programs, then each of several probes out of 25 (valid with warnings, failing with several errors, .repeat, multi-file, "
+        "(mutated) programs, then each of several probes out of 31 (valid with warnings, failing with several errors, .repeat, multi-file, "
         "include, make_*), compared with the same probe in a fresh process; PYTHONHASHSEED 0-3 (quick) / 0-31 (thorough); "
         "distinct = distinct (history signature, probe) pairs")
 ASSUMPTIONS = ["diagnostic text is not compared (it legitimately contains d<counter> names); severity, identifier and positions are",
@@ -41,6 +41,14 @@ PROBES = [
     # one statement, but a deep expression tree: whatever this gives alone it gives after any history (also after very long programs)
     ("deep-sum", [("p.mac", ".word " + "1+" * 1999 + "1\n")]),
     ("deep-minus", [("p.mac", ".word " + "-" * 1500 + "1\n")]),
+    # character literals the charset cannot encode: an error every time, not only the first time in a process
+    ("bad-char-literal", [("p.mac", ".word 'é\n.word 1\n")]),
+    ("bad-char-literal-again", [("q.mac", " nop\n.byte 'é, 1\n")]),
+    ("bad-two-char-literal", [("p.mac", ".word \"é€\n")]),
+    # directive names written without their dot, and the same words as ordinary names
+    ("dotless-directives", [("p.mac", "word 1\n even\n blkw 2\n byte 3\n")]),
+    ("nop-even", [("p.mac", "nop even\n")]),
+    ("word-as-variable", [("p.mac", "word = 3\nword, 5\nblkw: nop\n br blkw\n")]),
     ("make", [("p.mac", "make_bin\nmake_raw \"o.raw\"\nmake_wav \"t.wav\", \"NAME\"\n .word 1\n")]),
     ("link-cancel", [("p.mac", "a: nop\n.link 1000+b-a\nb: nop\n .word a, b\n")]),
     ("lazy-sizes", [("p.mac", ".blkb n\n.even\nl1: .ascii \"x\" <c>\n.even\n.word l1\nn = 3\nc = 65.\n. = . + n\n.word .\n")]),
@@ -90,7 +98,7 @@ INC_FILES = {
 def plan(tier, seed):
     seeds = range(4) if tier == "quick" else range(32)
     per = 2 if tier == "quick" else 4
-    total = 320 if tier == "quick" else 8000
+    total = 480 if tier == "quick" else 8000
     shards = []
     for hs in seeds:
         for j in range(per):
